@@ -95,7 +95,15 @@ class RollingReduction(Expr):
                 columns = [col for col in self.frame.columns if col in columns]
             if columns == self.frame.columns:
                 return
-            result = type(self)(self.frame[columns], *self.operands[1:])
+            operands = list(self.operands[1:])
+            if isinstance(self.groupby_slice, list):
+                # the column selection of the groupby must not name columns
+                # that the frame no longer carries
+                position = self._parameters.index("groupby_slice") - 1
+                operands[position] = [
+                    col for col in self.groupby_slice if col in columns
+                ]
+            result = type(self)(self.frame[columns], *operands)
             if self.groupby_kwargs is None and columns == parent.operand("columns"):
                 return result
             # Keep the parent: it fixes the order and dimensionality of the
